@@ -1,2 +1,302 @@
+"""C06 deep rules R2-R8: every derived constructor / infix form is expanded by interpreting its
+source on opaque operands (symbols of symbolic width, Python integer parameters as symbolic or small
+concrete values); the resulting core term is compared with the mathematical function the name
+denotes, for all operand values over small domains (bit-vectors exhaustively at widths 1..3/4)."""
+import itertools
+from fractions import Fraction
+
+from ..common import get_repo, parallel_map
+from .. import proc, refsem
+from ..proc import S, BOOL, INT, REAL
+from .. import simpcheck as sc
+from ..absint import Interp, Explorer, Unsupported, AbsRaise, SymInt, AObj, ClassRef, Func
+
+BVW = ("BV", "W")
+FNODE = "pysmt.fnode.FNode"
+
+
+def sgn(v, w):
+    return refsem.to_signed(v, w)
+
+
+# name -> (operand sorts, how to call, reference value function(values, widths) )
+#   call kinds: ('mgr', ctor)            manager constructor on the operands
+#               ('meth', name)           FNode method / dunder on operand 0 with the others as arguments
+#               ('fn', module, name)     module-level function
+def cases():
+    c = []
+    B = BOOL
+
+    def bvcase(name, call, n, ref, extra=()):
+        c.append((name, call, [BVW] * n, list(extra), ref))
+    # comparisons
+    for sort, nm in ((INT, "Int"), (REAL, "Real")):
+        c.append(("GE[%s]" % nm, ("mgr", "GE"), [sort, sort], [], lambda v, W: v[0] >= v[1]))
+        c.append(("GT[%s]" % nm, ("mgr", "GT"), [sort, sort], [], lambda v, W: v[0] > v[1]))
+        c.append(("NotEquals[%s]" % nm, ("mgr", "NotEquals"), [sort, sort], [], lambda v, W: v[0] != v[1]))
+        for k in (1, 2, 3, 4):
+            c.append(("Min/%d[%s]" % (k, nm), ("mgr", "Min"), [sort] * k, [], lambda v, W: min(v)))
+            c.append(("Max/%d[%s]" % (k, nm), ("mgr", "Max"), [sort] * k, [], lambda v, W: max(v)))
+        c.append(("Abs[%s]" % nm, ("fn", "pysmt.shortcuts", "Abs"), [sort], [], lambda v, W: abs(v[0])))
+        c.append(("infix >=[%s]" % nm, ("meth", "__ge__"), [sort, sort], [], lambda v, W: v[0] >= v[1]))
+        c.append(("infix >[%s]" % nm, ("meth", "__gt__"), [sort, sort], [], lambda v, W: v[0] > v[1]))
+        c.append(("infix <=[%s]" % nm, ("meth", "__le__"), [sort, sort], [], lambda v, W: v[0] <= v[1]))
+        c.append(("infix <[%s]" % nm, ("meth", "__lt__"), [sort, sort], [], lambda v, W: v[0] < v[1]))
+        c.append(("infix +[%s]" % nm, ("meth", "__add__"), [sort, sort], [], lambda v, W: v[0] + v[1]))
+        c.append(("infix -[%s]" % nm, ("meth", "__sub__"), [sort, sort], [], lambda v, W: v[0] - v[1]))
+        c.append(("infix *[%s]" % nm, ("meth", "__mul__"), [sort, sort], [], lambda v, W: v[0] * v[1]))
+        c.append(("infix unary -[%s]" % nm, ("meth", "__neg__"), [sort], [], lambda v, W: -v[0]))
+        c.append(("infix x+3[%s]" % nm, ("meth", "__add__"), [sort], [3], lambda v, W: v[0] + 3))
+        c.append(("infix 3+x[%s]" % nm, ("meth", "__radd__"), [sort], [3], lambda v, W: 3 + v[0]))
+        c.append(("infix 3-x[%s]" % nm, ("meth", "__rsub__"), [sort], [3], lambda v, W: 3 - v[0]))
+        c.append(("infix 3*x[%s]" % nm, ("meth", "__rmul__"), [sort], [3], lambda v, W: 3 * v[0]))
+        c.append(("infix x-3[%s]" % nm, ("meth", "__sub__"), [sort], [3], lambda v, W: v[0] - 3))
+    c.append(("Xor", ("mgr", "Xor"), [B, B], [], lambda v, W: v[0] != v[1]))
+    c.append(("NotEquals[Bool via EqualsOrIff]", ("mgr", "EqualsOrIff"), [B, B], [], lambda v, W: v[0] == v[1]))
+    c.append(("EqualsOrIff[Int]", ("mgr", "EqualsOrIff"), [INT, INT], [], lambda v, W: v[0] == v[1]))
+    c.append(("EqualsOrIff[BV]", ("mgr", "EqualsOrIff"), [BVW, BVW], [], lambda v, W: v[0] == v[1]))
+    for k in range(0, 5):
+        c.append(("AtMostOne/%d" % k, ("mgr", "AtMostOne"), [B] * k, [], lambda v, W: sum(map(bool, v)) <= 1))
+        c.append(("ExactlyOne/%d" % k, ("mgr", "ExactlyOne"), [B] * k, [], lambda v, W: sum(map(bool, v)) == 1))
+    for k in range(2, 5):
+        c.append(("AllDifferent/%d[Int]" % k, ("mgr", "AllDifferent"), [INT] * k, [], lambda v, W: len(set(v)) == len(v)))
+        c.append(("AllDifferent/%d[Bool]" % k, ("mgr", "AllDifferent"), [B] * k, [], lambda v, W: len(set(v)) == len(v)))
+    c.append(("infix & [Bool]", ("meth", "__and__"), [B, B], [], lambda v, W: v[0] and v[1]))
+    c.append(("infix | [Bool]", ("meth", "__or__"), [B, B], [], lambda v, W: v[0] or v[1]))
+    c.append(("infix ^ [Bool]", ("meth", "__xor__"), [B, B], [], lambda v, W: v[0] != v[1]))
+    c.append(("infix ~ [Bool]", ("meth", "__invert__"), [B], [], lambda v, W: not v[0]))
+    for nm, f in (("Implies", lambda v, W: (not v[0]) or v[1]), ("Iff", lambda v, W: v[0] == v[1]),
+                  ("And", lambda v, W: v[0] and v[1]), ("Or", lambda v, W: v[0] or v[1])):
+        c.append(("method %s" % nm, ("meth", nm), [B, B], [], f))
+    c.append(("method Ite", ("meth", "Ite"), [B, INT, INT], [], lambda v, W: v[1] if v[0] else v[2]))
+    c.append(("method Equals", ("meth", "Equals"), [INT, INT], [], lambda v, W: v[0] == v[1]))
+    c.append(("method NotEquals", ("meth", "NotEquals"), [INT, INT], [], lambda v, W: v[0] != v[1]))
+    # bit-vectors
+    M = lambda W: (1 << W) - 1
+    bvcase("BVNand", ("mgr", "BVNand"), 2, lambda v, W: ~(v[0] & v[1]) & M(W))
+    bvcase("BVNor", ("mgr", "BVNor"), 2, lambda v, W: ~(v[0] | v[1]) & M(W))
+    bvcase("BVXnor", ("mgr", "BVXnor"), 2, lambda v, W: ~(v[0] ^ v[1]) & M(W))
+    bvcase("BVUGT", ("mgr", "BVUGT"), 2, lambda v, W: v[0] > v[1])
+    bvcase("BVUGE", ("mgr", "BVUGE"), 2, lambda v, W: v[0] >= v[1])
+    bvcase("BVSGT", ("mgr", "BVSGT"), 2, lambda v, W: sgn(v[0], W) > sgn(v[1], W))
+    bvcase("BVSGE", ("mgr", "BVSGE"), 2, lambda v, W: sgn(v[0], W) >= sgn(v[1], W))
+    bvcase("BVSMod", ("mgr", "BVSMod"), 2, lambda v, W: refsem.bvsmod(v[0], v[1], W))
+    bvcase("BVAnd/3", ("mgr", "BVAnd"), 3, lambda v, W: v[0] & v[1] & v[2])
+    bvcase("BVOr/3", ("mgr", "BVOr"), 3, lambda v, W: v[0] | v[1] | v[2])
+    bvcase("BVAdd/3", ("mgr", "BVAdd"), 3, lambda v, W: (v[0] + v[1] + v[2]) & M(W))
+    bvcase("BVMul/3", ("mgr", "BVMul"), 3, lambda v, W: (v[0] * v[1] * v[2]) & M(W))
+    bvcase("BVConcat/3", ("mgr", "BVConcat"), 3, lambda v, W: (v[0] << (2 * W)) | (v[1] << W) | v[2])
+    bvcase("BVAnd/1", ("mgr", "BVAnd"), 1, lambda v, W: v[0])
+    bvcase("MinBV unsigned/3", ("mgr", "MinBV"), 3, lambda v, W: min(v), extra=["pre:False"])
+    bvcase("MaxBV unsigned/3", ("mgr", "MaxBV"), 3, lambda v, W: max(v), extra=["pre:False"])
+    bvcase("MinBV signed/3", ("mgr", "MinBV"), 3, lambda v, W: min(v, key=lambda x: sgn(x, W)), extra=["pre:True"])
+    bvcase("MaxBV signed/2", ("mgr", "MaxBV"), 2, lambda v, W: max(v, key=lambda x: sgn(x, W)), extra=["pre:True"])
+    for k in (1, 2, 3):
+        bvcase("BVRepeat x%d" % k, ("mgr", "BVRepeat"), 1,
+               (lambda k: lambda v, W: sum(v[0] << (i * W) for i in range(k)))(k), extra=[k])
+    for sh in (0, 1, 2, 3):
+        bvcase("BVLShl by int %d" % sh, ("mgr", "BVLShl"), 1, (lambda s: lambda v, W: (v[0] << s) & M(W) if s < W else 0)(sh), extra=[sh])
+        bvcase("BVLShr by int %d" % sh, ("mgr", "BVLShr"), 1, (lambda s: lambda v, W: (v[0] >> s) if s < W else 0)(sh), extra=[sh])
+        bvcase("BVAShr by int %d" % sh, ("mgr", "BVAShr"), 1, (lambda s: lambda v, W: refsem.bvashr(v[0], s, W))(sh), extra=[sh])
+        bvcase("infix << %d" % sh, ("meth", "__lshift__"), 1, (lambda s: lambda v, W: (v[0] << s) & M(W) if s < W else 0)(sh), extra=[sh])
+        bvcase("infix >> %d" % sh, ("meth", "__rshift__"), 1, (lambda s: lambda v, W: (v[0] >> s) if s < W else 0)(sh), extra=[sh])
+    for dn, f in (("__add__", lambda v, W: (v[0] + v[1]) & M(W)), ("__sub__", lambda v, W: (v[0] - v[1]) & M(W)),
+                  ("__mul__", lambda v, W: (v[0] * v[1]) & M(W)), ("__and__", lambda v, W: v[0] & v[1]),
+                  ("__or__", lambda v, W: v[0] | v[1]), ("__xor__", lambda v, W: v[0] ^ v[1]),
+                  ("__div__", lambda v, W: refsem.bvudiv(v[0], v[1], W)), ("__truediv__", lambda v, W: refsem.bvudiv(v[0], v[1], W)),
+                  ("__mod__", lambda v, W: refsem.bvurem(v[0], v[1], W)),
+                  ("__lt__", lambda v, W: v[0] < v[1]), ("__le__", lambda v, W: v[0] <= v[1]),
+                  ("__gt__", lambda v, W: v[0] > v[1]), ("__ge__", lambda v, W: v[0] >= v[1])):
+        bvcase("infix %s [BV]" % dn, ("meth", dn), 2, f)
+    bvcase("infix ~ [BV]", ("meth", "__invert__"), 1, lambda v, W: ~v[0] & M(W))
+    bvcase("infix unary - [BV]", ("meth", "__neg__"), 1, lambda v, W: (-v[0]) & M(W))
+    bvcase("infix 1 - x [BV]", ("meth", "__rsub__"), 1, lambda v, W: (1 - v[0]) & M(W), extra=[1])
+    bvcase("infix x + 1 [BV]", ("meth", "__add__"), 1, lambda v, W: (v[0] + 1) & M(W), extra=[1])
+    for nm, f in (("BVSGT", lambda v, W: sgn(v[0], W) > sgn(v[1], W)), ("BVUGE", lambda v, W: v[0] >= v[1]),
+                  ("BVSMod", lambda v, W: refsem.bvsmod(v[0], v[1], W)), ("BVNand", lambda v, W: ~(v[0] & v[1]) & M(W)),
+                  ("BVSRem", lambda v, W: refsem.bvsrem(v[0], v[1], W)), ("BVSDiv", lambda v, W: refsem.bvsdiv(v[0], v[1], W)),
+                  ("BVComp", lambda v, W: 1 if v[0] == v[1] else 0), ("BVXnor", lambda v, W: ~(v[0] ^ v[1]) & M(W)),
+                  ("BVAShr", lambda v, W: refsem.bvashr(v[0], v[1], W)), ("BVULT", lambda v, W: v[0] < v[1]),
+                  ("BVSLE", lambda v, W: sgn(v[0], W) <= sgn(v[1], W)), ("BVUGT", lambda v, W: v[0] > v[1]),
+                  ("BVSub", lambda v, W: (v[0] - v[1]) & M(W)), ("BVURem", lambda v, W: refsem.bvurem(v[0], v[1], W))):
+        bvcase("method %s" % nm, ("meth", nm), 2, f)
+    return c
+
+
+def _job(idx):
+    name, call, sorts, extra, ref = CASES[idx]
+
+    def one(ex):
+        it = Interp(ex)
+        w = proc.setup_env(__import__("sa.world", fromlist=["World"]).World().attach(it))
+        ops = [w.symbol("t%d" % i, sc._sort(w, s)) for i, s in enumerate(sorts)]
+        pre = [e[4:] == "True" for e in extra if isinstance(e, str) and e.startswith("pre:")]
+        post_args = [e for e in extra if not (isinstance(e, str) and e.startswith("pre:"))]
+        if call[0] == "mgr":
+            r = it.call(it.getattr(w.mgr, call[1]), pre + ops + post_args)
+        elif call[0] == "meth":
+            r = it.call(it.getattr(ops[0], call[1]), ops[1:] + post_args)
+        else:
+            r = it.call(it.module_global(w.repo.modules[call[1]], call[2]), ops + post_args)
+        return (w, ops, r)
+    try:
+        paths = Explorer(max_paths=100).run(one)
+    except Unsupported as e:
+        return [(name, "unsupported", str(e))]
+    out = []
+    for p in paths:
+        if p.kind == "unsupported":
+            out.append((name, "unsupported", str(p.value)))
+            continue
+        if p.kind == "raise":
+            # explicit rejections (PysmtValueError / PysmtTypeError) are not wrong answers; internal
+            # errors on a feasible path are
+            internal = p.value.cls_name in ("AssertionError", "AttributeError", "TypeError", "KeyError", "IndexError",
+                                            "ZeroDivisionError", "UnboundLocalError", "NameError")
+            feas = False
+            if internal:
+                facts = p.facts()
+                vs = set()
+                for f in facts:
+                    sc.term_vars(f, vs)
+                for wv in (1, 2, 3):
+                    if sc.facts_hold(facts, dict((v, wv) for v in vs)):
+                        feas = True
+            if internal and feas:
+                out.append((name, "raises", "%s %s" % (p.value.cls_name, [str(a)[:60] for a in p.value.exc_args])))
+            continue
+        w, ops, r = p.value
+        if not w.is_node(r):
+            out.append((name, "unsupported", "returned %r" % (r,)))
+            continue
+        rs = sc.node_str(w, r)
+        n_ok = 0
+        bad = None
+        try:
+            for asg in sc.assignments(w, ops + [r], p.facts(), max_w=3):
+                if not sc.facts_hold(p.facts(), asg):
+                    continue
+                vals = [asg["sym:t%d" % i] for i in range(len(ops))]
+                W = asg.get("W")
+                try:
+                    exp = ref(vals, W)
+                    got = sc.nodeval(w, r, asg)
+                except refsem.Undefined:
+                    continue
+                if isinstance(exp, bool) or isinstance(got, bool):
+                    same = bool(exp) == bool(got)
+                else:
+                    same = exp == got
+                if not same:
+                    bad = "for %s%s the expansion %s denotes %r, the name denotes %r" % (
+                        vals, (" at width %d" % W) if W else "", rs[:160], got, exp)
+                    break
+                n_ok += 1
+        except (refsem.NoSemantics, sc.Malformed) as e:
+            out.append((name, "unsupported", "evaluation: %s" % e))
+            continue
+        if bad:
+            out.append((name, "invalid", bad))
+        elif n_ok:
+            out.append((name, "valid", "%d operand assignments; expansion %s" % (n_ok, rs[:120])))
+    return out
+
+
+CASES = cases()
+
+
+def _sbv_job(_):
+    """SBV(value, width): two's complement for negatives, range check."""
+    def one(ex):
+        it = Interp(ex)
+        w = __import__("sa.world", fromlist=["World"]).World().attach(it)
+        v, wd = w.var("v", "int"), w.var("W", "width")
+        r = it.call(it.getattr(w.mgr, "SBV"), [v, wd])
+        return (w, r)
+    out = []
+    paths = Explorer(max_paths=100).run(one)
+    for W in (1, 2, 3, 4):
+        for v in range(-(1 << W) - 2, (1 << W) + 3):
+            asg = {"v": v, "W": W}
+            exp_ok = -(1 << (W - 1)) <= v <= (1 << (W - 1)) - 1
+            for p in paths:
+                if not sc.facts_hold(p.facts(), asg):
+                    continue
+                if p.kind == "unsupported":
+                    return [("SBV", "unsupported", str(p.value))]
+                if p.kind == "raise":
+                    if exp_ok:
+                        return [("SBV", "invalid", "SBV(%d, %d) raises %s although the value is representable" % (v, W, p.value.cls_name))]
+                else:
+                    w, r = p.value
+                    if not exp_ok:
+                        return [("SBV", "invalid", "SBV(%d, %d) is accepted although it is out of the signed range" % (v, W))]
+                    got = sc.nodeval(w, r, asg)
+                    if got != v % (1 << W) or sc.ev(w.nsort(r)[1], asg) != W:
+                        return [("SBV", "invalid", "SBV(%d, %d) builds the constant %r" % (v, W, got))]
+                break
+    return [("SBV", "valid", "all values in [-2^W-2, 2^W+2] at widths 1..4")]
+
+
+def _slice_job(_):
+    """x[i:j], x[i:], x[:j], x[i] on a bit-vector: BVExtract(x, start=i or 0, end=j)."""
+    out = []
+    for start, stop in [(0, 0), (None, 0), (0, 2), (1, 2), (None, 2), (1, 3), (3, 3), (0, 3), (2, 2)]:
+        def one(ex, start=start, stop=stop):
+            it = Interp(ex)
+            w = proc.setup_env(__import__("sa.world", fromlist=["World"]).World().attach(it))
+            x = w.symbol("x", ("BV", 4))
+            idx = AObj("builtins.slice", {"start": start, "stop": stop, "step": None})
+            r = it.call(it.getattr(x, "__getitem__"), [idx])
+            exp = w.mk_node(w.ops.id("BV_EXTRACT"), (x,), (stop - (start or 0) + 1, start or 0, stop))
+            return (w, r, exp)
+        for p in Explorer(max_paths=20).run(one):
+            if p.kind == "return":
+                w, r, exp = p.value
+                if r is exp:
+                    out.append(("slice x[%s:%s]" % (start, stop), "valid", "extract bits %s..%s" % (start or 0, stop)))
+                else:
+                    out.append(("slice x[%s:%s]" % (start, stop), "invalid",
+                                "x[%s:%s] builds %s with payload %s; the slice denotes bits %s..%s"
+                                % (start, stop, sc.node_str(w, r), w.npayload(r) if w.is_node(r) else None, start or 0, stop)))
+            elif p.kind == "raise":
+                out.append(("slice x[%s:%s]" % (start, stop), "raises", p.value.cls_name))
+            else:
+                out.append(("slice x[%s:%s]" % (start, stop), "unsupported", str(p.value)))
+    for i in (0, 2, 3):
+        def one(ex, i=i):
+            it = Interp(ex)
+            w = proc.setup_env(__import__("sa.world", fromlist=["World"]).World().attach(it))
+            x = w.symbol("x", ("BV", 4))
+            r = it.call(it.getattr(x, "__getitem__"), [i])
+            exp = w.mk_node(w.ops.id("BV_EXTRACT"), (x,), (1, i, i))
+            return (w, r, exp)
+        for p in Explorer(max_paths=20).run(one):
+            if p.kind == "return":
+                w, r, exp = p.value
+                out.append(("index x[%d]" % i, "valid" if r is exp else "invalid",
+                            "bit %d" % i if r is exp else "x[%d] builds %s" % (i, sc.node_str(w, r))))
+            else:
+                out.append(("index x[%d]" % i, "unsupported" if p.kind == "unsupported" else "raises", str(p.value)))
+    return out
+
+
 def run(ctx):
-    pass
+    if not ctx.want("R2"):
+        return
+    rs = ctx.rule("R2", "derived constructors / infix forms denote the function their name states (expansion vs reference)")
+    outs = parallel_map(_job, list(range(len(CASES))))
+    outs.append(_sbv_job(None))
+    outs.append(_slice_job(None))
+    ctx.analysed["derived_forms"] = len(CASES) + 2
+    for res in outs:
+        for name, kind, detail in res:
+            if kind == "valid":
+                rs.ok({"form": name, "checked": detail})
+            elif kind == "invalid":
+                ctx.finding(rs, "%s|wrong-expansion" % name, "%s: %s" % (name, detail), "pysmt/formula.py")
+            elif kind == "raises":
+                ctx.finding(rs, "%s|raises" % name, "%s raises on well-typed operands: %s" % (name, detail), "pysmt/formula.py")
+            else:
+                rs.unrec("%s: %s" % (name, detail[:120]))
+    ctx.floor(rs, 120)
